@@ -33,7 +33,7 @@ macro_rules! twin_step {
         $nd.assume(ra.is_ok() && rb.is_ok());
         ctrl!($a, $b, "C17.control_getters[base]");
         let n = $b.input_frames_next();
-        $nd.assume(n <= $MI && $a.input_frames_next() <= $MI);
+        $crate::fit!($nd, n <= $MI && $a.input_frames_next() <= $MI, "C17.demand_fits_scenario_bound[base]");
         let mut x32 = [0.0f32; $MI];
         let mut x64 = [0.0f64; $MI];
         crate::drive::fill_line(&mut x32[..], 0);
@@ -161,7 +161,7 @@ harnesses! {
             let mut o32 = [SENT as f32; 8];
             let mut o64 = [SENT; 8];
             let n = b.input_frames_next();
-            nd.assume(n <= 8 && a.input_frames_next() <= 8);
+            crate::fit!(nd, n <= 8 && a.input_frames_next() <= 8, "C17.demand_fits_scenario_bound[base]");
             let na = a.input_frames_next();
             let ra = a.process_into_buffer(&[&x32[..na]], &mut [&mut o32[..]], None);
             let rb = b.process_into_buffer(&[&x64[..n]], &mut [&mut o64[..]], None);
